@@ -224,6 +224,14 @@ def run_shard(ctx):
         if ctx.out_of_time():
             break
         case = gen_case(rng)
+        if rng.random() < .2:
+            # same values, different presentation: strided views, narrower integer labels
+            for k in ('labels', 'values', 'ip', 'x'):
+                if k in case and isinstance(case[k], np.ndarray):
+                    if k == 'labels' and rng.random() < .5:
+                        case[k] = case[k].astype(np.int32)
+                    case[k], _ = gens.relayout(rng, case[k], 'strided')
+            ctx.count('strided_inputs')
         KINDS[case['kind']](ctx, case)
         if case['kind'] not in seen:
             seen.add(case['kind'])
